@@ -22,6 +22,8 @@ import Bermuda.Lemmas.ResampleME
 import Bermuda.Lemmas.ResampleATA
 import Bermuda.Lemmas.ResampleMESpec
 import Bermuda.Lemmas.ResampleBoot
+import Bermuda.Lemmas.ResampleCW
+import Bermuda.Lemmas.ResampleChain
 namespace Bermuda.Properties.C17
 open Bermuda Bermuda.Resample
 
@@ -655,6 +657,29 @@ theorem spec_me {xs U qs : List Rat} {L : Option (Rat × Rat)} {tol : Rat} (h : 
   ⟨meIntervalsOk_model h h2 hU ht, meEnvelopeOk_model h h2 hU ht, meLimitsOk_model h h2 hU ht,
    mePermOk_model h ht, meValueOk_model h ht⟩
 
+/-- **me_centre_width.** The independent restatement of `Spec/C17.lean` IS the model's quantile function: for a
+draw `u ∈ [0, 1)` (series of `n ≥ 2` sorted values) the cell is `⌊u·n⌋`, the code's interval
+`[z_i + shift_i, z_{i+1} + shift_i]` is `centre ± width/2`, and the value is the linear interpolation
+`centre + ((u·n − i) − 1/2)·width` -/
+theorem me_centre_width {sx : List Rat} (lo hi : Rat) (h2 : 2 ≤ sx.length) :
+    (∀ i, i < sx.length →
+      y0At sx lo hi i = Spec.C17.cwCentre sx i - Spec.C17.cwWidth sx lo hi i / 2 ∧
+      y1At sx lo hi i = Spec.C17.cwCentre sx i + Spec.C17.cwWidth sx lo hi i / 2) ∧
+    (∀ i u, xrAt sx.length i ≤ u → u < xrAt sx.length (i + 1) → Spec.C17.cwCell sx.length u = i) ∧
+    (∀ u, 0 ≤ u → u < 1 → meQuantile sx lo hi u = .ok (Spec.C17.cwValue sx lo hi u)) :=
+  ⟨fun _ hlt => cw_interval lo hi h2 hlt, fun _ _ hl hu => cwCell_eq (by omega) hl hu,
+   fun _ h0 h1 => meQuantile_eq_cw lo hi h2 h0 h1⟩
+
+/-- **spec_me_independent** (bridge). The two clauses that state the maximum-entropy values WITHOUT calling the
+model's quantile function — `meValueCWOk` (the replicate is, as a multiset, the centre/width interpolation of the
+`n` smallest draws) and `meIntervalsCWOk` (each value lies in a cell interval `centre ± |width|/2`) — are true of
+the model's replicate, for every slack `tol ≥ 0`; with `rankFixed` (`spec_rank`) they determine the replicate. -/
+theorem spec_me_independent {xs U qs : List Rat} {L : Option (Rat × Rat)} {tol : Rat}
+    (h : meQuantiles xs U L = .ok qs) (hU : ∀ u ∈ U, 0 ≤ u ∧ u < 1) (ht : 0 ≤ tol) :
+    Spec.C17.meValueCWOk xs U L tol (reimposeRank xs qs) = true ∧
+    Spec.C17.meIntervalsCWOk xs L tol (reimposeRank xs qs) = true :=
+  ⟨meValueCWOk_model h ht, meIntervalsCWOk_model h hU ht⟩
+
 /-! ### 8. age-to-age: resampled factors and the chained product, for EVERY index draw -/
 
 /-- **develop_value (arithmetic).** Chaining factors `x₀, x₁, …` from a start value `a`: the `k`-th developed
@@ -702,6 +727,29 @@ vector, sums to 1, and is non-negative on non-negative values — a probability 
 theorem ata_weights_probability {x p : List Rat} (h : normalizeW x = .ok p) :
     p.length = x.length ∧ sumQ p = 1 ∧ ((∀ v ∈ x, 0 ≤ v) → ∀ v ∈ p, 0 ≤ v) :=
   normalizeW_spec h
+
+/-- **chain_step_ok** (value clause, one step). One step of `_develop_triangle_by_atas` on a cell `c` that is not
+the first of its period satisfies the executable cell clause `Spec.C17.chainCellOk` — for EVERY field of `c`
+jointly: a selected field the previous developed cell has reads `None` when `c`'s value is falsy, else
+`previous developed value × resampled_atas[lag][field][period_idx]`; every other field keeps its value. -/
+theorem chain_step_ok {F : Factors} {fields : List String} {pidx : Nat} {c : Cell} {vals its : Dict Val}
+    {tbl : List (String × List Rat)} (hF : assoc? F c.devLag = some tbl)
+    (hT : ∀ f, (assoc? tbl f).isSome = fields.contains f)
+    (hits : developItems c tbl pidx vals = .ok its) (hv : vals.keys.Nodup) (hc : c.values.keys.Nodup) :
+    Spec.C17.chainCellOk F fields pidx c vals { c with values := Dict.union c.values its } = true :=
+  chainCellOk_step hF hT hits hv hc
+
+/-- **spec_chain_cells** (bridge for the value clause, in list order). For the model's own factor table
+(`resampledAtas` from ANY index draws `I`) and a canonical slice `s`: walking through `s` and the developed slice
+side by side (`ChainFrom`), the earliest cell of every period is returned as it is and EVERY other cell satisfies
+`Spec.C17.chainCellOk` against the developed cell before it. What `Spec.C17.chainOkSlice` adds — finding the
+"previous cell of the row" by development lag and the replicate's cells by coordinate after the tag and
+`sum(boot)` — is NOT bridged (declared in notes/agents/c17b.md). -/
+theorem spec_chain_cells {s out : List Cell} {fields : List String} {I : IdxTable} {F : Factors}
+    (hF : resampledAtas s fields I = .ok F) (h : developByAtas s F = .ok out)
+    (hk : kindsConsistent s = true) (hs : s.Pairwise (fun a b => Cell.le a b))
+    (hwf : ∀ c ∈ s, c.values.keys.Nodup) : ChainFrom s F fields [] s out :=
+  developLoop_chain (resampledAtas_tableKeys hF) s [] out (developByAtas_loop h hk hs) (by simp [Dict.keys]) hwf
 
 /-- **bootstrapD_is_bootstrap.** The model that takes numpy's INDEX draws (and computes the empirical factors
 itself, `ataTable` / `resampledAtas`) is an instance of the factor-table model … -/
